@@ -412,6 +412,40 @@ func c18LongAlphabet(c Cfg) []Op {
 	}
 }
 
+// longKeyMergeAlphabet: the long-key universe with Merge and restart as symbols (used by C01, C06, C14: a hint
+// file spanning block boundaries is only read by the restart that adopts a merge).
+func longKeyMergeAlphabet(c Cfg) []Op {
+	return []Op{
+		{K: "put", Key: c18LongKeys[0], VC: "S"},
+		{K: "put", Key: c18LongKeys[1], VC: "S"},
+		{K: "put", Key: c18LongKeys[2], VC: "S"},
+		{K: "del", Key: c18LongKeys[1], Dev: true},
+		{K: "merge", Dev: true},
+		{K: "restart", Dev: true},
+	}
+}
+
+func longKeyCfgs() []Cfg {
+	var out []Cfg
+	for _, ix := range []int8{1, 2, 3} {
+		lc := defaultCfg
+		lc.Index, lc.FileSize = ix, 1<<20
+		out = append(out, lc)
+	}
+	return out
+}
+
+// sameOffsetAlphabet (block family): key a is rewritten at the SAME in-block offset of a LATER block of the same
+// file (a record that ends exactly on a block boundary in between), then merged: positions must be compared in full.
+func sameOffsetAlphabet(c Cfg) []Op {
+	return []Op{
+		{K: "put", Key: "a", VC: "S"},
+		{K: "put", Key: "b", VC: "B", Arg: 0},
+		{K: "merge"},
+		{K: "restart"},
+	}
+}
+
 func runC18(cfg Cfg, keys []string, ops []Op, res *TaskResult) *Violation {
 	// every sequence is followed by Merge (both scan orders on separate runs)
 	for _, perm := range []int{0, 1} {
@@ -474,6 +508,8 @@ func init() {
 				return a
 			}
 			tasks := seqTasks("C06", []seqLevel{
+				{Name: "long-keys-d5", Cfgs: longKeyCfgs(), Keys: c18LongKeys, Alpha: longKeyMergeAlphabet, Depth: 5, Dev: 3, Run: runC06},
+				{Name: "same-offset-d6", Cfgs: []Cfg{blockCfg()}, Keys: keysAB, Alpha: sameOffsetAlphabet, Depth: 6, Dev: 6, Run: runC06},
 				{Name: fmt.Sprintf("seq-d%db%d", d, b), Cfgs: cfgs, Keys: keysAB, Alpha: c06Alphabet, Depth: d, Dev: b, Run: runC06},
 				{Name: fmt.Sprintf("fault-d%d", fd), Cfgs: []Cfg{defaultCfg, mm}, Keys: keysAB, Alpha: faultAlpha, Depth: fd, Dev: 2, Run: runC06Fault},
 			})
